@@ -110,6 +110,8 @@ def exl_cases(rng, n0, count):
             if bytes(nm) == b"EXLT":
                 nm = [65]
             entries.append([nm, rng.choice(ids) if rng.random() < 0.5 else rng.randint(-2**31, 2**31 - 1)])
+        if len(entries) >= 2 and rng.random() < 0.3:
+            entries.insert(rng.randrange(1, len(entries) + 1), [list(entries[0][0]), rng.choice(ids)])     # a name listed twice
         version = rng.choice(ids + [2])
         probe = [e[0] for e in entries[:3]] + [[110, 111, 112, 101]]
         canon = render_exl(version, entries)
@@ -123,6 +125,9 @@ def exl_cases(rng, n0, count):
                     for _ in range(ncom)]
         withc = render_exl(version, entries, comments)
         lines.append({"op": "text.exl.parse", "case": n0 + i, "bytes": list(withc), "probe": probe,
+                      "canonical": False, "abs": SOME(absx)})
+        # the game's own lists end their lines with CRLF
+        lines.append({"op": "text.exl.parse", "case": n0 + i, "bytes": list(canon.replace(b"\n", b"\r\n") + b"\r\n"), "probe": probe,
                       "canonical": False, "abs": SOME(absx)})
         out.append(Case(lines, desc={"exl": absx, "comments": ncom}, nontrivial=ne > 0))
     return out
